@@ -104,4 +104,12 @@ def expand (apps : List (List Tag)) : List Tag → List Tag
 def iter (x : XT) : List Tag :=
   (x.subclasses.map (expand x.appdata)).flatten ++ x.embedded.flatten ++ x.xdata.flatten
 
+
+/-- `ExtendedTags.new_app_data(appid, tags, subclass_name)`: the group is appended to `appdata` and a
+    placeholder (102, index) is appended to subclass number `sub` (0 = base class) -/
+def newAppData (x : XT) (sub : Nat) (group : List Tag) : XT :=
+  { x with appdata := x.appdata ++ [group],
+           subclasses := x.subclasses.zipIdx.map fun (sc, i) =>
+             if i = sub then sc ++ [⟨102, .ref x.appdata.length⟩] else sc }
+
 end EzdxfVerif.XTags
